@@ -871,7 +871,10 @@ func scenC04(g *Gen, dir string) ([]*Op, func(e *Env, i int, op *Op, obs []strin
 	ops = append(ops, factsOp())
 	ver1 := len(ops)
 	ops = append(ops, &Op{Kind: "verify", V: v})
-	mode := r.Intn(11)
+	mode := r.Intn(12)
+	if mode == 11 {
+		mode = 21 // a signature descriptor's Size enlarged
+	}
 	if forge {
 		mode = 5 + r.Intn(2) // a data bit of an object
 	}
@@ -1032,6 +1035,29 @@ func fillPatch(g *Gen, op *Op, b []byte) {
 		tabEnd = len(b)
 	}
 	switch {
+	case mode == 21: // the Size of a signature object's descriptor enlarged: its reader runs on into what follows (to the end of the file if need be)
+		ts := parseTable(b, total)
+		var sigs []tableSlot
+		for _, t := range ts {
+			if t.used && t.sig {
+				sigs = append(sigs, t)
+			}
+		}
+		if len(sigs) == 0 {
+			op.Sites = []PatchSite{flip(r.Intn(128))}
+			break
+		}
+		t := pick(r, sigs)
+		ns := t.size + int64(pick(r, []int{1, 7, 300, 100000}))
+		if r.Chance(1, 3) {
+			ns = 0x0c42d46a21568883
+		}
+		v := make([]byte, 8)
+		for k := 0; k < 8; k++ {
+			v[k] = byte(ns >> (8 * k))
+		}
+		op.Sites = []PatchSite{{Off: int64(t.o + 25), B: v}}
+		g.count("tamper:signature-size-enlarged")
 	case mode == 20: // a bit inside the content of an in-use non-signature object (an OCI blob half of the time when there is one)
 		ts := parseTable(b, total)
 		var objs, blobs []tableSlot
@@ -1590,7 +1616,11 @@ func scenC16(g *Gen, dir string) ([]*Op, func(e *Env, i int, op *Op, obs []strin
 	// optional tampering
 	tamper := r.Chance(1, 2)
 	if tamper {
-		ops = append(ops, &Op{Kind: "patch", Raw: []string{fmt.Sprint(r.Intn(12)), "6"}})
+		mode := r.Intn(14)
+		if mode >= 12 {
+			mode = 21
+		}
+		ops = append(ops, &Op{Kind: "patch", Raw: []string{fmt.Sprint(mode), "12"}})
 	}
 	ops = append(ops, factsOp())
 	// every verification mode
